@@ -104,7 +104,7 @@ func parseSingleConstraint(c string) ([]*constraint, error) {
 	}
 
 	// Handle comparison operators
-	operators := []string{">=", "<=", "!=", "<>", ">", "<", "=", "=="}
+	operators := []string{">=", "<=", "!=", "<>", "==", ">", "<", "="}
 	for _, op := range operators {
 		if strings.HasPrefix(c, op) {
 			versionStr := strings.TrimSpace(c[len(op):])
